@@ -485,6 +485,48 @@ func hostileInterfaceEntry(t *rapid.T, sections ...*ye.Node) string {
 	return "interface-entry-replaced"
 }
 
+// rewireNeeds adds 0-3 small jobs and gives random jobs random `needs` lists over all job ids of the
+// file (self references, cycles with and without jobs leading into them, unknown ids, repetitions).
+func rewireNeeds(t *rapid.T, root *ye.Node) string {
+	jobs := root.Get("jobs")
+	if jobs == nil || jobs.Kind != ye.Map {
+		return ""
+	}
+	for i := rapid.IntRange(0, 3).Draw(t, "extrajobs"); i > 0; i-- {
+		j := ye.M()
+		j.Set("runs-on", ye.S("ubuntu-latest"))
+		j.Set("steps", ye.L(ye.M().Set("run", ye.S("echo"))))
+		id := fmt.Sprintf("zzj%d", i)
+		// new jobs go to a random position: document order decides where searches start
+		at := rapid.IntRange(0, len(jobs.Keys)).Draw(t, "extraat")
+		jobs.Keys = append(jobs.Keys[:at:at], append([]*ye.Node{ye.S(id)}, jobs.Keys[at:]...)...)
+		jobs.Vals = append(jobs.Vals[:at:at], append([]*ye.Node{j}, jobs.Vals[at:]...)...)
+	}
+	var ids []string
+	for _, k := range jobs.Keys {
+		ids = append(ids, k.Val)
+	}
+	ids = append(ids, "zz-no-such-job")
+	for _, j := range jobs.Vals {
+		if j.Kind != ye.Map || rapid.Bool().Draw(t, "keepneeds") {
+			continue
+		}
+		l := ye.L()
+		for i := rapid.IntRange(1, 3).Draw(t, "nneeds"); i > 0; i-- {
+			l.Vals = append(l.Vals, ye.S(rapid.SampledFrom(ids).Draw(t, "needsid")))
+		}
+		if j.Get("needs") != nil {
+			j.Del("needs")
+		}
+		if len(l.Vals) == 1 && rapid.Bool().Draw(t, "needsscalar") {
+			j.Set("needs", l.Vals[0])
+		} else {
+			j.Set("needs", l)
+		}
+	}
+	return "needs-rewired"
+}
+
 func byteMutate(t *rapid.T, b []byte) []byte {
 	n := rapid.IntRange(1, 4).Draw(t, "nbm")
 	for i := 0; i < n && len(b) > 0; i++ {
@@ -576,7 +618,14 @@ func TestC01(t *testing.T) {
 			if rapid.Bool().Draw(rt, "shufflekeys") {
 				g.ShuffleKeys(w.Root)
 			}
-			kinds := hostileMutate(rt, w.Root, rapid.IntRange(1, 6).Draw(rt, "nmut"))
+			var kinds []string
+			if rapid.IntRange(0, 3).Draw(rt, "rewire") == 0 {
+				// well-formed values, hostile structure: the dependency graph
+				if k := rewireNeeds(rt, w.Root); k != "" {
+					kinds = append(kinds, k)
+				}
+			}
+			kinds = append(kinds, hostileMutate(rt, w.Root, rapid.IntRange(0, 6).Draw(rt, "nmut"))...)
 			b := []byte(ye.Emit(w.Root, g.Layout()))
 			if rapid.IntRange(0, 4).Draw(rt, "bytes") == 0 {
 				b = byteMutate(rt, b)
